@@ -46,6 +46,7 @@ type scriptConn struct {
 	closed  int
 	wantBlk bool
 	lag     time.Duration
+	gap     time.Duration // real idle time before the second segment is delivered
 	rerr    string // "", "closed", "reset": the error the read at the end of the stream returns (default EOF)
 	wfail   int    // >0: the wfail-th and every later Write fails
 	writes  int
@@ -66,6 +67,10 @@ func (c *scriptConn) Read(b []byte) (int, error) {
 		c.segs = c.segs[1:]
 		c.blocks = append(c.blocks, countFrames(c.written))
 		waited = true
+		if c.gap > 0 {
+			time.Sleep(c.gap)
+			c.gap = 0
+		}
 	}
 	if waited && !c.rdeadline.IsZero() && time.Now().Add(idleGap).After(c.rdeadline) {
 		return 0, timeoutError{}
@@ -113,6 +118,10 @@ func countFrames(b []byte) int {
 }
 
 func (c *scriptConn) Write(b []byte) (int, error) {
+	if !c.wdeadline.IsZero() && time.Now().After(c.wdeadline) {
+		// a write deadline that has passed (in real time): as on a socket, nothing is written
+		return 0, timeoutError{}
+	}
 	c.log.add("wr:" + canonReply(b))
 	c.writes++
 	if c.wfail > 0 && c.writes >= c.wfail {
@@ -431,6 +440,7 @@ type serveCase struct {
 	blk       bool
 	wfail     int
 	rerr      string
+	gap  time.Duration
 	lag       time.Duration
 	memo      bool
 	deof      bool
@@ -526,6 +536,10 @@ func parseServeCase(toks []string) *serveCase {
 		case strings.HasPrefix(t, "lag="):
 			ms, _ := strconv.Atoi(t[4:])
 			c.lag = time.Duration(ms) * time.Millisecond
+		case strings.HasPrefix(t, "gap="):
+			// the client is idle for that long (really: wall-clock time) between its first and its second segment
+			ms, _ := strconv.Atoi(t[4:])
+			c.gap = time.Duration(ms) * time.Millisecond
 		}
 	}
 	if len(secs) > 1 {
@@ -581,7 +595,7 @@ func newServerFor(c *serveCase, log *eventLog) (*redis.Server, *double) {
 func runServe(c *serveCase) *serveResult {
 	log := &eventLog{}
 	srv, d := newServerFor(c, log)
-	conn := &scriptConn{log: log, segs: c.segs, wfail: c.wfail, rerr: c.rerr, lag: c.lag, deof: c.deof}
+	conn := &scriptConn{log: log, segs: c.segs, wfail: c.wfail, rerr: c.rerr, lag: c.lag, gap: c.gap, deof: c.deof}
 	res := &serveResult{}
 	done := make(chan struct{})
 	go func() {
@@ -595,7 +609,7 @@ func runServe(c *serveCase) *serveResult {
 	}()
 	select {
 	case <-done:
-	case <-time.After(10 * time.Second):
+	case <-time.After(10*time.Second + c.gap + c.lag):
 		res.hung = true
 		return res
 	}
